@@ -75,6 +75,12 @@ func genC14(r *rng, tier string, res *Result) {
 					kept = append(kept, held{what, b, append([]byte{}, b...)})
 				}
 			}
+			// the slice is the caller's: appending to it must not reach database memory
+			own := func(b []byte) {
+				if b != nil {
+					_ = append(b, 0xAA, 0xAA, 0xAA, 0xAA, 0xAA, 0xAA, 0xAA, 0xAA, 0xAA, 0xAA, 0xAA, 0xAA, 0xAA, 0xAA, 0xAA, 0xAA)
+				}
+			}
 			ref := map[string][]byte{}
 			keys := make([][]byte, 10)
 			for j := range keys {
@@ -86,6 +92,9 @@ func genC14(r *rng, tier string, res *Result) {
 				switch x := r.intn(100); {
 				case x < 40:
 					v := r.bytes(20 + r.intn(200))
+					if r.chance(20) {
+						v = []byte{}
+					}
 					kk, vv := append([]byte{}, k...), append([]byte{}, v...)
 					if err := db.Put(kk, vv); err != nil {
 						fail("put: " + err.Error())
@@ -112,6 +121,7 @@ func genC14(r *rng, tier string, res *Result) {
 					v, err := db.Get(k)
 					if err == nil {
 						keep("Get("+interp.Hex(k)+")", v)
+						own(v)
 					}
 					prog = append(prog, "get "+interp.Hex(k)+" (slice kept)")
 				case x < 80:
@@ -131,6 +141,8 @@ func genC14(r *rng, tier string, res *Result) {
 						}
 						keep("Next key", kk)
 						keep("Next value", vv)
+						own(kk)
+						own(vv)
 					}
 					prog = append(prog, "items (slices kept)")
 				case x < 96:
@@ -139,6 +151,15 @@ func genC14(r *rng, tier string, res *Result) {
 				default:
 					_ = db.Sync()
 					prog = append(prog, "sync")
+				}
+			}
+			// what the database holds is what was put, whatever the caller did with its slices
+			for k, want := range ref {
+				got, err := db.Get([]byte(k))
+				if err != nil || got == nil || !bytes.Equal(got, want) {
+					fail(fmt.Sprintf("Get(%s) = %s after the caller used its slices, want %s", interp.Hex([]byte(k)), clip(interp.Hex(got)), clip(interp.Hex(want))))
+					db.Close()
+					return
 				}
 			}
 			// overwrite everything, compact away the segments the values were read from, close
@@ -481,6 +502,48 @@ func genC18(r *rng, tier string, res *Result) {
 			res.Tags["golden_directories_opened"]++
 			res.Tags["golden_keys_compared"] += len(exp.Contents)
 		}
+	}
+	// sequence-numbered segment names: a database whose sequence counter is large (ids are recycled,
+	// sequence numbers never are) opens like any other
+	for si, seq := range []uint64{65535, 65536, 1 << 32, 1<<63 + 12345} {
+		t := tfs.New()
+		o := &pogreb.Options{FileSystem: t}
+		pogreb.VerifSeedOverride = nil
+		db, err := pogreb.Open("db", o)
+		if err != nil {
+			continue
+		}
+		for j := 0; j < 20; j++ {
+			_ = db.Put([]byte(fmt.Sprintf("k%d", j)), []byte(fmt.Sprintf("v%d", j)))
+		}
+		_ = db.Close()
+		img := t.Image()
+		oldName, newName := "db/"+pogreb.VerifSegmentName(0, 1), "db/"+pogreb.VerifSegmentName(0, seq)
+		img[newName], img[newName+".pmt"] = img[oldName], img[oldName+".pmt"]
+		delete(img, oldName)
+		delete(img, oldName+".pmt")
+		db, err = pogreb.Open("db", &pogreb.Options{FileSystem: tfs.FromImage(img)})
+		what := ""
+		if err != nil {
+			what = "Open: " + err.Error()
+		} else {
+			if db.Count() != 20 {
+				what = fmt.Sprintf("Count %d", db.Count())
+			}
+			for j := 0; j < 20 && what == ""; j++ {
+				v, _ := db.Get([]byte(fmt.Sprintf("k%d", j)))
+				if string(v) != fmt.Sprintf("v%d", j) {
+					what = fmt.Sprintf("Get(k%d) = %q", j, v)
+				}
+			}
+			_ = db.Put([]byte("more"), []byte("x"))
+			_ = db.Close()
+		}
+		if what != "" {
+			res.Findings = append(res.Findings, &Finding{Kind: "spec", Case: fmt.Sprintf("C18/seq/%d", si), Cmd: fmt.Sprintf("open a directory whose segment has sequence number %d", seq),
+				Impl: []string{what}, Expected: []string{"opens with the 20 keys"}, Program: []string{newName}})
+		}
+		res.Tags["large_sequence_numbers_opened"]++
 	}
 	// the golden segments are accepted record for record by the Coq reader
 	cmd := exec.Command("sh", "-c", "ulimit -s unlimited 2>/dev/null; exec \"$0\" flat", modelBin)
